@@ -1,4 +1,4 @@
-package vh
+package censorrig
 
 // In-process rig around the REAL PostgreSQL proxy of acra: a harness-implemented
 // base.ClientSession over two net.Pipe pairs, both proxy goroutines, a scripted client end and a
@@ -6,6 +6,8 @@ package vh
 // waits for the message(s) the proxy must emit, so observations are deterministic.
 
 import (
+	"acra-vh/vh"
+
 	"context"
 	"encoding/binary"
 	"errors"
@@ -141,7 +143,7 @@ func NewPgRig(censorYAML, encryptorYAML []byte) (*PgRig, error) {
 		return nil, err
 	}
 	parser := sqlparser.New(sqlparser.ModeStrict)
-	ks := NewMemKeystore()
+	ks := vh.NewMemKeystore()
 	setting := base.NewProxySetting(parser, schema, ks, nil, censor, nil)
 	factory, err := postgresql.NewProxyFactory(setting, ks, nil)
 	if err != nil {
